@@ -402,7 +402,8 @@ def gen_grammar(r: random.Random, allow_leftrec=True):
         simple_rule = r.random() < 0.2  # all alternatives single unnamed items, no action (the inlining path)
         for ai in range(r.randint(1, 3)):
             if simple_rule:
-                alts.append({"items": [atom(1, ri)], "action": None})
+                # (also repetitions: a failed `x+` yields an empty list, which an inlined choice must treat as a failure)
+                alts.append({"items": [item(1, ri) if r.random() < 0.35 else atom(1, ri)], "action": None})
                 continue
             items = [item(0, ri) for _ in range(r.randint(1, 3))]
             if lr_heavy and r.random() < 0.5:
